@@ -72,6 +72,34 @@ def mp_taylor_multi(f_mp, coeff_list, D, dps=MP_DPS):
         mp.dps = old
 
 
+def mp_compose(deriv_seq, coeffs, dps=MP_DPS):
+    """Taylor coefficients of f(x(t)) from the scaled derivatives a_k = f^(k)(x_0)/k! (callable deriv_seq(x0, D) -> list of
+    D mp numbers, computed by mpmath) and the truncated powers of u(t) = x(t) - x_0, all in ``dps`` + 4 D digit arithmetic.
+    Cheap for large D where numerical differentiation of the composition is not."""
+    D = len(coeffs)
+    old = mp.dps
+    mp.dps = dps + 4 * D
+    try:
+        x = [_to_mp(c) for c in coeffs]
+        a = deriv_seq(x[0], D)
+        u = [mpf(0)] + x[1:]
+        y = [mpf(0)] * D
+        pw = [mpf(1)] + [mpf(0)] * (D - 1)
+        for k in range(D):
+            for d in range(D):
+                y[d] += a[k] * pw[d]
+            nxt = [mpf(0)] * D
+            for i in range(D):
+                if pw[i] == 0:
+                    continue
+                for j in range(1, D - i):
+                    nxt[i + j] += pw[i] * u[j]
+            pw = nxt
+        return [complex(v) if isinstance(v, mpc) and v.imag != 0 else float(v.real if isinstance(v, mpc) else v) for v in y]
+    finally:
+        mp.dps = old
+
+
 # ---------------------------------------------------------------------------
 # exact truncated power series over Fractions (Gaussian rationals for complex)
 # ---------------------------------------------------------------------------
